@@ -411,6 +411,17 @@ func (s *sched) spawn(parent *thread, f func()) *thread {
 				return
 			}
 			s.handoff(nil)
+			if RaceBuild {
+				// Keep the goroutine until the execution is torn down: the race
+				// detector can only report a race with an earlier access whose
+				// goroutine it still has a trace for, and it recycles the traces
+				// of finished goroutines (measured: reports against a worker that
+				// had already exited were dropped in most runs).
+				raceOff()
+				<-t.wake
+				raceOn()
+				raceAcquire(&s.abortw)
+			}
 		}()
 		f()
 	}()
